@@ -82,10 +82,15 @@ class VEvent:
         c = Ctx.cur
         if c is None:
             return self.flag
+        if c.runaway:
+            # the only way out of `while event.time_left < 0: wait()` once nothing can wake the loop any more
+            # (the dispatcher swallows it; the next tick() of the wrapper ends the run)
+            raise Runaway('idle wait of a loop that cannot be woken')
         try:
             c.on_wait(timeout)
         except Runaway:
             c.runaway = True
+            raise
         return self.flag
 
 
@@ -296,9 +301,23 @@ def run_case(case):
     _helpers.Event = VEvent
     drv = Driver(case)
     Ctx.cur = drv
+
+    def on_alarm(signo, frame):        # watchdog: a loop that neither returns nor ticks
+        drv.runaway = True
+        raise Runaway('watchdog')
+    old_alarm = None
+    if threading.current_thread() is threading.main_thread():
+        old_alarm = _signal.signal(_signal.SIGALRM, on_alarm)
+        _signal.setitimer(_signal.ITIMER_REAL, 20, 1)
     try:
-        drv.run_ops()
+        try:
+            drv.run_ops()
+        except Runaway:
+            drv.runaway = True
     finally:
+        if old_alarm is not None:
+            _signal.setitimer(_signal.ITIMER_REAL, 0)
+            _signal.signal(_signal.SIGALRM, old_alarm)
         Ctx.cur = None
         _helpers.Event = saved
     sched, cur = [], None
@@ -495,7 +514,7 @@ class C08(Prop):
     props_file = 'Props/C08.v'
     imports = ['Model.KLoop', 'Model.KLoopObs']
     quick_n = 300
-    thorough_n = 6000
+    thorough_n = 4000
     rule = ('random programs of scripted plain/generator handlers on started, stopped, exception and 5 user events '
             '(acyclic firing), with one deliberately placed stop site (started / mid-chain / generator step / second '
             'thread inside a handler / second thread while the loop idles / SystemExit / KeyboardInterrupt / inside the '
